@@ -130,6 +130,23 @@ def run(tier, seed):
         "evaluations": len(cases), "distinct_nontrivial": nt, "rule": RULE,
         "samples": [B.harness_line(cases[k], "sample") for k in range(3)], "distribution": dict(dist),
     }
+    # concurrent lending: calls answered with `u.make_ref(..)` through one shared &Unimock hand every caller its OWN value (the value
+    # chain's try_insert walk is the one further piece of shared mutable state a concurrent call touches; C13's model and harness)
+    lend_n, lend_payload = 0, None
+    if not trace_bad:
+        from . import C13
+        lend_n, lend_payload = C13.concurrent_lending(rng, tier, "C10")
+        cov["lending_part"] = {"evaluations": lend_n, "rule": C13.concurrent_lending.__doc__}
+        cov["obligations"] += 1
+        cov["discharged"] += 0 if lend_payload else 1
+        cov["evaluations"] += lend_n
+    if lend_payload is not None:
+        lend_payload["seed"] = seed
+        no_input = lend_payload.pop("no_input", False)
+        path = C.write_replay("C10", seed, lend_payload)
+        C.write_evidence("C10", tier, seed, cov, time.time() - t0, 1)
+        C.violation("C10", path, no_input=no_input)
+        return 1
     if trace_bad:
         # prefer an input on which the PROPERTY fails (results differ from the model, which satisfies it by theorem)
         if result_bad:
@@ -156,6 +173,9 @@ def run(tier, seed):
 
 def replay(path):
     payload = json.load(open(path))
+    if payload.get("part") == "lending":
+        from . import C13
+        return C13.replay_lending("C10", payload, path)
     case = payload.get("case")
     if case is None:
         print("replay file names an obligation, not an input:", payload.get("theorem_or_correspondence"))
